@@ -126,6 +126,22 @@ func (s *SimOS) log(method string, failable bool, args ...any) (idx int, err err
 	return c.Seq, err
 }
 
+// Prepare runs host-side set-up on the simulated machine: no faults are
+// injected into it, and the call log and fault counters start afresh afterwards.
+func (s *SimOS) Prepare(fn func()) {
+	s.mu.Lock()
+	all, at, y := s.FailAll, s.FailAt, s.YieldFn
+	s.FailAll, s.FailAt, s.YieldFn = false, map[int]bool{}, nil
+	s.mu.Unlock()
+	fn()
+	s.mu.Lock()
+	s.FailAll, s.FailAt, s.YieldFn = all, at, y
+	s.calls = nil
+	s.failable = 0
+	s.Injected = 0
+	s.mu.Unlock()
+}
+
 func (s *SimOS) setErr(idx int, err error) error {
 	if err != nil {
 		s.mu.Lock()
@@ -786,6 +802,9 @@ func (f *simFile) Stat() (fs.FileInfo, error) {
 	}
 	f.os.mu.Lock()
 	defer f.os.mu.Unlock()
+	if f.closed {
+		return nil, &fs.PathError{Op: "stat", Path: f.path, Err: fs.ErrClosed}
+	}
 	return f.os.info(f.path, f.n), nil
 }
 
